@@ -2,6 +2,7 @@ import Driver.C13
 import Driver.C14
 import Driver.C15
 import Driver.C09
+import Driver.C19
 
 def main (args : List String) : IO UInt32 := do
   match args with
@@ -9,4 +10,5 @@ def main (args : List String) : IO UInt32 := do
   | ["c14"] => Driver.C14.run; return 0
   | ["c15"] => Driver.C15.run; return 0
   | ["c09"] => Driver.C09.run; return 0
+  | ["c19"] => Driver.C19.run; return 0
   | _ => IO.eprintln "usage: bufmodel <property-protocol>"; return 2
